@@ -320,7 +320,79 @@ def run_step(step):
     return obs
 
 
-def run_history(ctx, history, source):
+_FRESH_CHILD = r'''
+import json, sys
+hist = json.load(sys.stdin)
+from rtmon.props import c11
+from rtmon.props.c16 import _Probe
+p = _Probe()
+p.seen = lambda *a, **k: False
+c11.run_history(p, hist, 'fresh-confirmation', confirm=False)
+print(json.dumps({'violates': bool(p.bad)}))
+'''
+
+
+def violates_in_fresh_process(history):
+    """Does this history, run from the start of a new interpreter, break the property?  (Makes witnesses replayable and
+    tells a leak inside the history from residue of earlier histories of the same shard.)"""
+    try:
+        p = subprocess.run([sys.executable, '-c', _FRESH_CHILD], input=json.dumps(history), capture_output=True, text=True, cwd=HOME, timeout=120)
+        return json.loads(p.stdout.strip().splitlines()[-1])['violates']
+    except Exception:
+        return None
+
+
+import collections as _collections
+
+_trail = _collections.deque(maxlen=600)      # every step executed in this shard, oldest first
+_confirmations = [0]
+
+
+def minimise_trail(trail, tail, budget=24):
+    """ddmin-style: drop chunks of the leading trail while trail+tail still violates in a fresh interpreter."""
+    trail = list(trail)
+    n = 2
+    while len(trail) >= 1 and budget > 0:
+        size = max(1, len(trail) // n)
+        removed = False
+        for i in range(0, len(trail), size):
+            cand = trail[:i] + trail[i + size:]
+            budget -= 1
+            if violates_in_fresh_process(cand + tail):
+                trail = cand
+                n = max(2, n - 1)
+                removed = True
+                break
+            if budget <= 0:
+                break
+        if not removed:
+            if size == 1:
+                break
+            n = min(len(trail), n * 2)
+    return trail
+
+
+def witness(history_prefix):
+    """A history that reproduces the violation from the start of a NEW interpreter: this history alone if that is
+    enough, else with as little as possible of what the shard executed before it (the leak may come from far back)."""
+    if _confirmations[0] >= 6:
+        return list(_trail)[-40:] + history_prefix, 'not confirmed in a fresh interpreter (confirmation budget used up)'
+    _confirmations[0] += 1
+    if violates_in_fresh_process(history_prefix):
+        return history_prefix, 'reproduced in a fresh interpreter'
+    done = len(history_prefix)
+    before = list(_trail)
+    for k in (8, 60, 600):
+        lead = before[-k:]
+        if violates_in_fresh_process(lead + history_prefix):
+            lead = minimise_trail(lead, history_prefix)
+            return lead + history_prefix, 'reproduced in a fresh interpreter together with %d earlier step(s) of the shard' % len(lead)
+        if k >= len(before):
+            break
+    return before[-40:] + history_prefix, 'NOT reproduced in a fresh interpreter (depends on residue older than 600 steps)'
+
+
+def run_history(ctx, history, source, confirm=True):
     ctx.ev()
     mt.reset()
     sigs = []
@@ -335,7 +407,8 @@ def run_history(ctx, history, source):
             if what == 'reset':
                 ctx.count('checks', 'token lists after context exit')
                 if not val:
-                    ctx.violation('token-sets-not-reset', 'after %s' % step_name(step), {'history': history[:i + 1], 'source': source},
+                    w, how = witness(history[:i + 1]) if confirm else (history[:i + 1], '')
+                    ctx.violation('token-sets-not-reset', 'after %s' % step_name(step), {'history': w, 'source': source, 'confirmation': how},
                                   block=[t.__name__ for t in block_token._token_types], span=[t.__name__ for t in span_token._token_types])
                     mt.reset()
             elif what == 'fault-fired':
@@ -353,10 +426,13 @@ def run_history(ctx, history, source):
                         ctx.count('signature', repr(sig)[:160])
                 if val != want:
                     prev = [step_name(s) for s in history[:i]]
+                    w, how = witness(history[:i + 1]) if confirm else (history[:i + 1], '')
                     ctx.violation('depends-on-history', 'probe %s differs after %s' % (probe_name(what), prev[-1] if prev else '(nothing)'),
-                                  {'history': history[:i + 1], 'source': source}, expected=want, observed=val)
+                                  {'history': w, 'source': source, 'confirmation': how}, expected=want, observed=val)
     if len(history) > 1:
         ctx.seen('nontrivial', history)
+    if confirm:
+        _trail.extend(history)
     mt.reset()
     # undo known residue kinds so that one leak is reported once per history, not for all later histories
     try:
